@@ -11,9 +11,9 @@ from wasix import *
 
 NAMES = ['f', 'g', 'sub']
 OFLAGS = {0: '0', 1: 'CREAT', 5: 'CREAT|EXCL', 8: 'TRUNC', 9: 'CREAT|TRUNC', 2: 'DIRECTORY', 10: 'DIRECTORY|TRUNC', 3: 'DIRECTORY|CREAT'}   # oflags bits: creat 1, directory 2, excl 4, trunc 8
-FDFLAGS = {0: '0', 1: 'APPEND'}
+FDFLAGS = {0: '0', 1: 'APPEND', 16: 'SYNC'}
 RIGHTS = {1: 'R', 2: 'W', 3: 'RW'}
-SHAPES = {0: '[]', 1: '[3]', 2: '[0]', 3: '[2,0,3]', 4: '[1,1,1]'}
+SHAPES = {0: '[]', 1: '[3]', 2: '[0]', 3: '[2,0,3]', 4: '[1,1,1]', 5: '[2,3@end-of-memory]'}
 OFFSETS = [0, 2, 7, 2 ** 31, 2 ** 32 + 3]
 SEEKS = [0, 3, -2, 2 ** 32 + 1]
 WHENCES = [0, 1, 2, 3]
@@ -52,7 +52,9 @@ def alphabet(info, depth):
                 for fl in FDFLAGS:
                     for r in RIGHTS:
                         if o in (10, 3) and (fl != 0 or r == 1):
-                            continue        # DIRECTORY combined with TRUNC / CREAT: write access, no append (keeps level 3 affordable)
+                            continue
+                        if fl == 16 and (o not in (0, 1) or r != 3):
+                            continue        # the sync flag with plain and creating opens, read-write        # DIRECTORY combined with TRUNC / CREAT: write access, no append (keeps level 3 affordable)
                         ops.append('o,%s,%d,%d,%d,%d' % (n, o, fl, r, ns))
     for fd, name in info:
         for ns in nss:
